@@ -671,6 +671,17 @@ class Evaluator(abc.ABC):
         """
         resultsList = []
 
+        # The number of objectives is inferred from the first job which did not fail: a failure
+        # (i.e., an objective which is a string) carries no information about it.
+        if self.num_objective is None:
+            for job in self.jobs_done:
+                if isinstance(job.objective, (tuple, list)):
+                    self.num_objective = len(job.objective)
+                    break
+                elif type(job.objective) is not str:
+                    self.num_objective = 1
+                    break
+
         for job in self.jobs_done:
             result = copy.deepcopy(job.args)
 
@@ -684,16 +695,11 @@ class Evaluator(abc.ABC):
             if isinstance(result["objective"], tuple) or isinstance(result["objective"], list):
                 obj = result.pop("objective")
 
-                if self.num_objective is None:
-                    self.num_objective = len(obj)
-
                 for i, objval in enumerate(obj):
                     result[f"objective_{i}"] = objval
             else:
-                if self.num_objective is None:
-                    self.num_objective = 1
-
-                if self.num_objective > 1:
+                # a failure is repeated in each objective column
+                if self.num_objective is not None and self.num_objective > 1:
                     obj = result.pop("objective")
                     for i in range(self.num_objective):
                         result[f"objective_{i}"] = obj
